@@ -237,8 +237,12 @@ impl FiberFile {
             return Ok(to_copy);
         }
 
-        // Direct read for large requests or misaligned access
+        // Direct read for large requests or misaligned access.  The OS cursor is not the logical
+        // position after a read-ahead, a read_at or a seek inside the read-ahead window: go there first.
         if buf.len() >= self.config.read_buffer_size {
+            self.inner
+                .seek(tokio::io::SeekFrom::Start(self.position))
+                .await?;
             let bytes_read = self.inner.read(buf).await?;
 
             self.position += bytes_read as u64;
@@ -310,6 +314,17 @@ impl FiberFile {
 
     /// Seek to a position in the file
     pub async fn seek(&mut self, pos: tokio::io::SeekFrom) -> Result<u64> {
+        // Current(d) is relative to the logical position, not to the OS cursor (which runs ahead of it
+        // by whatever the read-ahead fetched)
+        let pos = match pos {
+            tokio::io::SeekFrom::Current(d) => {
+                let target = (self.position as i64).checked_add(d).filter(|t| *t >= 0).ok_or_else(|| {
+                    crate::error::ZiporaError::invalid_data("seek before the start of the file")
+                })?;
+                tokio::io::SeekFrom::Start(target as u64)
+            }
+            other => other,
+        };
         let new_position = self.inner.seek(pos).await?;
 
         self.position = new_position;
@@ -332,8 +347,13 @@ impl FiberFile {
 
     /// Read entire file contents
     pub async fn read_to_end(&mut self) -> Result<Vec<u8>> {
+        // from the logical position (the OS cursor may be anywhere, see read)
+        self.inner
+            .seek(tokio::io::SeekFrom::Start(self.position))
+            .await?;
         let mut contents = Vec::new();
         self.inner.read_to_end(&mut contents).await?;
+        self.position += contents.len() as u64;
 
         Ok(contents)
     }
